@@ -93,6 +93,18 @@ func FindInsertionPoints(
 	result map[string]interface{},
 	startingPoints [][]string,
 ) ([][]string, error) {
+	return findInsertionPoints(targetPoints, selectionSet, result, startingPoints, true)
+}
+
+// findInsertionPoints is FindInsertionPoints for a step that is looked up by the id of the object it
+// completes (withID) or for a step on a root type, which has no id (a payload's `query: Query` field)
+func findInsertionPoints(
+	targetPoints []string,
+	selectionSet ast.SelectionSet,
+	result map[string]interface{},
+	startingPoints [][]string,
+	withID bool,
+) ([][]string, error) {
 	oldBranch := copy2DStringArray(startingPoints)
 
 	// track the root of the selection set while we walk
@@ -181,7 +193,7 @@ func FindInsertionPoints(
 
 				// an entry without an id has nothing to be completed with (a member of a union or
 				// interface list that the step is not about): the other entries keep their points
-				if pointI == len(targetPoints)-1 && len(newBranchSet) > 0 {
+				if withID && pointI == len(targetPoints)-1 && len(newBranchSet) > 0 {
 					id, err := extractID(resultEntry)
 					if err != nil {
 						return nil, err
@@ -196,7 +208,7 @@ func FindInsertionPoints(
 					// add the path to the end of this for the entry we just added
 					for i, newBranch := range newBranchSet {
 						// if we are looking at the last thing in the insertion list
-						if pointI == len(targetPoints)-1 {
+						if withID && pointI == len(targetPoints)-1 {
 							// look for an id
 							id, err := extractID(resultEntry)
 							if err != nil {
@@ -219,11 +231,12 @@ func FindInsertionPoints(
 				}
 
 				// compute the insertion points for that entry
-				entryInsertionPoints, err := FindInsertionPoints(
+				entryInsertionPoints, err := findInsertionPoints(
 					targetPoints,
 					selectionSetRoot,
 					resultEntry,
 					newBranchSet,
+					withID,
 				)
 				if err != nil {
 					return nil, err
@@ -247,7 +260,7 @@ func FindInsertionPoints(
 			oldBranch[i] = append(points, point)
 		}
 
-		if pointI == len(targetPoints)-1 {
+		if withID && pointI == len(targetPoints)-1 {
 			// the root value could be a list in which case the id is the id of the corresponding entry
 			// or the root value could be an object in which case the id is the id of the root value
 
